@@ -140,6 +140,10 @@ func (c14) Run(ctx *RunCtx) {
 	var request func(op int, doc *JDoc, method string, params J, l, ch int, occ *Occ, echo bool)
 	request = func(op int, doc *JDoc, method string, params J, l, ch int, occ *Occ, echo bool) {
 		pendingBefore := d.LiveBg()
+		if _, timer := d.Env.Clock.NextTimer(); timer {
+			// a timer the server set (a debounced analysis, say) is work in flight
+			pendingBefore++
+		}
 		if d.Sess.InboundPending() || len(d.S.RunnableTasks()) > 0 {
 			// notifications the dispatcher has not even read yet will spawn tasks
 			pendingBefore++
